@@ -12,7 +12,7 @@ For every property:
 import re
 
 from . import v2gen
-from .lib import expr, expr_bytes, expr_len, hx, SIG
+from .lib import Rng, expr, expr_bytes, expr_len, hx, SIG
 
 FLAGS = re.compile(r" i([01])c([01])$")
 
@@ -148,7 +148,135 @@ class C11(Prop):
         return None
 
 
-REGISTRY = {c.id: c for c in (C02(), C11())}
+def kv(segment):
+    return dict(f.split("=", 1) for f in segment.split(" ") if "=" in f)
+
+
+class C14(Prop):
+    id = "C14"
+    projection_name = "views (every accessor of the borrowed and of the owned header)"
+    streams = (v2gen.valid_headers, v2gen.header_tlvs, v2gen.control_v2, v2gen.truncations)
+    trusted_extra = ("the clause `borrowed and owned` is trivial in the model (values are immutable); the harness "
+                     "observes it on the implementation (owned == borrowed, same views, after the source buffer is overwritten and freed)",)
+
+    def groups(self, stream, e, meta):
+        yield ("views", ["views2 " + e])
+
+    def project(self, case, line):
+        return line.split(" | ")[0]
+
+    def classify(self, case, line):
+        if line.startswith("B["):
+            m = re.search(r"fam=(\d)", line)
+            return "OK fam=%s" % (m.group(1) if m else "?")
+        return line[:16]
+
+    def oracle(self, tag, cases, impl, spec, meta):
+        line = impl[0]
+        if line == "PANIC":
+            return "an accessor panicked"
+        if line == "REJ" or spec[0] == "REJ":
+            return None if line == spec[0] else "acceptance differs from the spec (impl `%s`, spec `%s`)" % (line[:60], spec[0][:60])
+        m = re.match(r"B\[(.*)\] O\[(.*)\] \| (.*)$", line)
+        if not m:
+            return "unparseable observation"
+        b, o, extra = kv(m.group(1)), kv(m.group(2)), kv(m.group(3))
+        if b != o:
+            return "views of the owned copy differ from the borrowed header"
+        if extra != {"disp": "1", "eq": "1", "clobber": "1"}:
+            return "owned copy: %s" % extra
+        x = expr_bytes(cases[0].split(" ")[1])
+        un = lambda h: b"" if h == "-" else (None if h.startswith("#") else bytes.fromhex(h))
+        ab, tb, asb = un(b["ab"]), un(b["tb"]), un(b["asb"])
+        length, total, fam = int(b["length"]), int(b["len"]), int(b["fam"])
+        size = {0: 0, 1: 12, 2: 36, 3: 216}[fam]
+        sp = kv(spec[0])
+        if asb is not None and ab is not None and tb is not None:
+            if ab + tb != asb[16:]:
+                return "address bytes ++ tlv bytes is not the payload after the fixed part"
+            if len(asb) != total:
+                return "len() is not the length of as_bytes()"
+            if asb != x[:total]:
+                return "as_bytes() is not the first len() bytes of the input"
+        if b["ab"] != sp["ab"] or b["tb"] != sp["tb"]:
+            return "address/TLV views differ from the partition the spec prescribes"
+        if ab is not None and len(ab) != (length if fam == 0 else size):
+            return "address view has the wrong size"
+        if length + 16 != total or length != x[14] * 256 + x[15]:
+            return "length()/len() disagree with each other or with the length field"
+        if b["empty"] != "0":
+            return "is_empty() on an accepted header"
+        if fam != x[13] >> 4:
+            return "address_family() is not the family nibble on the wire"
+        if int(b["alen"]) != size or int(b["u16"]) != size or b["aempty"] != ("1" if fam == 0 else "0"):
+            return "Addresses::len / is_empty / u16::from(family) wrong"
+        if int(b["vc"]) != x[12] or int(b["fp"]) != x[13]:
+            return "version|command or protocol|family do not reproduce the control bytes"
+        if int(b["tl"]) != (len(tb) if tb is not None else int(b["tl"])) % 65536 or b["te"] != ("1" if b["tb"] == "-" else "0"):
+            return "TypeLengthValues::len / is_empty wrong"
+        # fields are the big-endian decoding of the address view
+        hdr = sp.get("OK")
+        decoded = spec[0].split(" ")[-1]
+        if ab is not None and fam in (1, 2):
+            n = 4 if fam == 1 else 16
+            want = "%d/%s/%s/%d/%d" % (4 if fam == 1 else 6, ab[:n].hex(), ab[n:2 * n].hex(),
+                                       ab[2 * n] * 256 + ab[2 * n + 1], ab[2 * n + 2] * 256 + ab[2 * n + 3])
+            if decoded != want:
+                return "decoded addresses are not the big-endian decoding of the address view"
+        return None
+
+
+class C17(Prop):
+    id = "C17"
+    projection_name = "full (error variant and its counts)"
+    streams = (v2gen.truncations, v2gen.control_v2, v2gen.control_space, v2gen.signature, v2gen.valid_headers)
+
+    def groups(self, stream, e, meta):
+        n = expr_len(e)
+        if n >= 16:
+            head = expr_bytes(e)[:16] if n < 100000 else None
+            declared = head[14] * 256 + head[15]
+            have = n - 16
+            if have < declared:
+                miss = declared - have
+                rnd = Rng(n * 65537 + declared)
+                full = expr(e, v2gen.payload_expr(rnd, miss))
+                cases = ["v2 " + e, "v2 " + full]
+                if miss > 1:
+                    cases.append("v2 " + expr(e, v2gen.payload_expr(rnd, 1 + rnd.below(miss - 1))))
+                yield ("fill", cases)
+                return
+        yield ("one", ["v2 " + e])
+
+    def oracle(self, tag, cases, impl, spec, meta):
+        n = expr_len(cases[0].split(" ")[1])
+        line = strip_flags(impl[0])
+        m = re.match(r"ERR Incomplete\((\d+)\)$", line)
+        if m and not (int(m.group(1)) == n and n < 16):
+            return "Incomplete(%s) for an input of %d bytes" % (m.group(1), n)
+        m = re.match(r"ERR Partial\((\d+),(\d+)\)$", line)
+        if m:
+            x = expr_bytes(cases[0].split(" ")[1])[:16]
+            have, need = int(m.group(1)), int(m.group(2))
+            if not (n >= 16 and have == n - 16 and need == x[14] * 256 + x[15] and have < need):
+                return "Partial(%d,%d) for an input of %d bytes declaring %d" % (have, need, n, x[14] * 256 + x[15])
+            if tag != "fill":
+                return "generator did not supply the fill cases for a Partial result"
+            if not strip_flags(impl[1]).startswith("OK "):
+                return "supplying exactly the %d missing bytes does not give a success: %s" % (need - have, impl[1][:100])
+            if len(cases) > 2:
+                k = expr_len(cases[2].split(" ")[1]) - n
+                if strip_flags(impl[2]) != "ERR Partial(%d,%d)" % (have + k, need):
+                    return "supplying %d of the %d missing bytes gives %s" % (k, need - have, impl[2][:100])
+        # truncations of a well-formed header report exactly these counts
+        if "cut" in meta and tag in ("one", "fill") and meta["cut"] < meta["full"]:
+            want = "ERR Incomplete(%d)" % meta["cut"] if meta["cut"] < 16 else "ERR Partial(%d,%d)" % (meta["cut"] - 16, meta["declared"])
+            if line != want:
+                return "prefix of %d bytes of a %d-byte header: %s, expected %s" % (meta["cut"], meta["full"], line, want)
+        return None
+
+
+REGISTRY = {c.id: c for c in (C02(), C11(), C14(), C17())}
 
 
 def get(prop):
